@@ -12,26 +12,28 @@ import (
 
 // Packages whose synthetic init function is executed (lazily, on first touch of one of their globals).
 var initWhitelist = map[string]bool{
-	"nhooyr.io/websocket":                true,
-	"nhooyr.io/websocket/wsjson":         true,
-	"nhooyr.io/websocket/internal/bpool": true,
-	"nhooyr.io/websocket/internal/errd":  true,
-	"nhooyr.io/websocket/internal/util":  true,
-	"nhooyr.io/websocket/internal/xsync": true,
-	"io":                                 true,
-	"bufio":                              true,
-	"bytes":                              true,
-	"strings":                            true,
-	"context":                            true,
-	"compress/flate":                     true,
-	"unicode/utf8":                       true,
-	"math/bits":                          true,
-	"net/textproto":                      true,
-	"encoding/base64":                    true,
-	"sort":                               true,
-	"slices":                             true,
-	"internal/stringslite":               true,
-	"internal/bytealg":                   true,
+	"nhooyr.io/websocket":                   true,
+	"nhooyr.io/websocket/wsjson":            true,
+	"nhooyr.io/websocket/internal/bpool":    true,
+	"nhooyr.io/websocket/internal/errd":     true,
+	"nhooyr.io/websocket/internal/util":     true,
+	"nhooyr.io/websocket/internal/xsync":    true,
+	"io":                                    true,
+	"bufio":                                 true,
+	"bytes":                                 true,
+	"strings":                               true,
+	"context":                               true,
+	"compress/flate":                        true,
+	"unicode/utf8":                          true,
+	"math/bits":                             true,
+	"net/textproto":                         true,
+	"encoding/base64":                       true,
+	"sort":                                  true,
+	"slices":                                true,
+	"internal/stringslite":                  true,
+	"internal/bytealg":                      true,
+	"vendor/golang.org/x/net/http/httpguts": true,
+	"net/url":                               true,
 }
 
 // Packages whose globals may be read as zero values without running their init (no initialiser matters to us).
